@@ -83,16 +83,25 @@ func workerMain(args []string) {
 		Work: *work, Repo: "/repo", Replay: *replay}
 
 	var cur atomic.Int64
-	var startedNs atomic.Int64
+	var startedNs, startBeatA atomic.Int64
 	cur.Store(-1)
 	go func() { // watchdog: wall clock only ever yields "inconclusive"
+		lastBeat, lastBeatAt := int64(-1), time.Now()
 		for {
 			time.Sleep(250 * time.Millisecond)
 			i := cur.Load()
 			if i < 0 {
+				lastBeat = -1
 				continue
 			}
 			el := time.Since(time.Unix(0, startedNs.Load()))
+			b := core.Beats.Load()
+			startBeat := startBeatA.Load()
+			if b != lastBeat {
+				lastBeat, lastBeatAt = b, time.Now()
+			}
+			// only a case that has begun beating can stall: an input started and never finished
+			stalled := p.StallS > 0 && b > startBeat && time.Since(lastBeatAt) > time.Duration(p.StallS)*time.Second
 			var ms runtime.MemStats
 			if el > 2*time.Second {
 				runtime.ReadMemStats(&ms)
@@ -101,7 +110,7 @@ func workerMain(args []string) {
 				j.line(core.Result{I: int(i), Verdict: core.Inconclusive, Key: "memory", Detail: "heap above 6 GiB"})
 				os.Exit(4)
 			}
-			if el > time.Duration(p.CaseTimeoutS)*time.Second {
+			if el > time.Duration(p.CaseTimeoutS)*time.Second || stalled {
 				s1 := sut.StepsNow()
 				time.Sleep(500 * time.Millisecond)
 				s2 := sut.StepsNow()
@@ -124,6 +133,7 @@ func workerMain(args []string) {
 	for i := *from; i < *to; i++ {
 		j.line(map[string]int{"begin": i})
 		startedNs.Store(time.Now().UnixNano())
+		startBeatA.Store(core.Beats.Load())
 		cur.Store(int64(i))
 		res := runOne(p, ctx, i)
 		cur.Store(-1)
@@ -343,12 +353,18 @@ func retryHang(self string, p *core.Prop, ctx *core.Ctx, r *core.Result, seq *at
 	if !p.HangIsViolation || !strings.Contains(r.Detail, "static") {
 		return r
 	}
+	if hangsConfirmed.Load() >= 8 {
+		r.Detail += " (not retried: 8 hangs already confirmed in this run)"
+		return r
+	}
+	last := ""
 	for try := 0; try < 2; try++ {
 		k := seq.Add(1)
 		wdir := filepath.Join(ctx.Work, fmt.Sprintf("w%d", k))
 		os.MkdirAll(wdir, 0755)
-		res, _, _, _ := runChild(self, p, ctx, r.I, r.I+1, 1, filepath.Join(wdir, "journal"), wdir, false)
+		res, _, out, _ := runChild(self, p, ctx, r.I, r.I+1, 1, filepath.Join(wdir, "journal"), wdir, false)
 		os.RemoveAll(wdir)
+		last = lastInputLine(out)
 		if len(res) != 1 {
 			return r
 		}
@@ -356,8 +372,26 @@ func retryHang(self string, p *core.Prop, ctx *core.Ctx, r *core.Result, seq *at
 			return res[0]
 		}
 	}
-	return &core.Result{I: r.I, Verdict: core.Violated, Key: "hang-outside-vm", Input: caseInput(self, p, ctx, r.I),
-		Detail: "case did not return within the watchdog in three isolated runs while the VM step counter did not advance"}
+	hangsConfirmed.Add(1)
+	in := caseInput(self, p, ctx, r.I)
+	if last != "" {
+		in = last + "\n" + in
+	}
+	return &core.Result{I: r.I, Verdict: core.Violated, Key: "hang-outside-vm", Input: in,
+		Detail: "case did not return within the watchdog in three isolated runs while the VM step counter did not advance; last input begun: " + last}
+}
+
+var hangsConfirmed atomic.Int64
+
+// lastInputLine returns the last "<ID>-INPUT ..." marker a worker wrote before it was stopped.
+func lastInputLine(out string) string {
+	last := ""
+	for _, ln := range strings.Split(out, "\n") {
+		if k := strings.Index(ln, "-INPUT "); k >= 0 && k <= 4 {
+			last = ln
+		}
+	}
+	return core.Trunc(last, 2000)
 }
 
 // caseInput asks a fresh child to describe case i without running it... the
